@@ -215,9 +215,9 @@ def plan(tier):
 
 def work(shard, seed, tier):
     acc = Acc()
-    n = 22 if tier == "quick" else 170
+    n = 30 if tier == "quick" else 320
     campaign(acc, command_case(), execute, n, seed * 1000 + shard["i"],
-             budget=Budget(45 if tier == "quick" else 600), shrink_examples=60)
+             budget=Budget(240 if tier == "quick" else 1500), shrink_examples=60)
     return acc
 
 
